@@ -108,18 +108,29 @@ pub fn gen_stack(rng: &mut Rng, depth: usize, axial: bool, allow: &[&str]) -> Ve
             let ax = if axial { [0.0, 0.0, 1.0] } else { let v = random_rotation(rng); col(&v, 0) };
             Fr { r: axis_angle(ax, ang), p: f.p }
         };
+        // exactly-identity / rotation-only / translation-only transforms (a wrapper that is configured but
+        // does nothing, a frame built from coinciding point pairs)
+        let special = rng.usize(20);
+        let plain = |f: Fr| -> Fr {
+            match special {
+                0 => Fr::id(),
+                1 => Fr { r: I3, p: f.p },
+                2 => Fr { r: f.r, p: [0.0; 3] },
+                _ => f,
+            }
+        };
         let l = match k {
             "Tool" => {
                 let f = if axial { axial_fr(rng, 0.5) } else { random_fr(rng, 0.5) };
-                Layer::Tool(if tiny { tiny_rot(rng, f, axial) } else { f })
+                Layer::Tool(if tiny { tiny_rot(rng, f, axial) } else { plain(f) })
             }
             "Frame" => {
                 let f = if axial { axial_fr(rng, 0.5) } else { random_fr(rng, 0.5) };
-                Layer::Frame(if tiny { tiny_rot(rng, f, axial) } else { f })
+                Layer::Frame(if tiny { tiny_rot(rng, f, axial) } else { plain(f) })
             }
             "Base" => {
                 let f = random_fr(rng, 1.0);
-                Layer::Base(if tiny { tiny_rot(rng, f, false) } else { f })
+                Layer::Base(if tiny { tiny_rot(rng, f, false) } else { plain(f) })
             }
             _ => {
                 let driven = rng.usize(6);
